@@ -323,7 +323,7 @@ class Gen:
 
 # ---------------------------------------------------------------------------------------------------------- rendering
 def block_comment(rng, allow_nl):
-    body = rng.choice(["c", " note ", "lda #1", " x /* nested */ y ", "*", " / ", "}", "**", " a /* b /* c */ d */ e "])
+    body = rng.choice(["c", " note ", "lda #1", " x /* nested */ y ", "*", " / ", "}", "**", " a /* b /* c */ d */ e ", "/**/", "x/*y*/", "/*/**/*/"])
     if allow_nl and rng.random() < 0.3:
         body += "\n more"
     return "/*" + body + "*/"
